@@ -571,7 +571,7 @@ type typedRootInput struct {
 }
 
 const typedRootDoc = `{"swagger":"2.0","info":{"title":"t","version":"1"},
- "definitions":{"Leaf":{"type":"object","deprecated":true,"const":"x","properties":{"v":{"type":"string","writeOnly":true,"x-go-name":"V"}}},
+ "definitions":{"Leaf":{"type":"object","deprecated":true,"const":"x","properties":{"v":{"type":"string","writeOnly":true,"x-go-name":"V","X-Order":2},"w":{"type":"integer","x-Order":"1","X-Nullable":true},"u":{"type":"boolean","x-order":3}}},
    "D":{"type":"object","not":{"type":"object","properties":{"l":{"$ref":"#/definitions/Leaf"}},"allOf":[{"$ref":"#/definitions/Leaf"}]}},
    "Pos":{"$ref":"http://json-schema.org/draft-04/schema#/definitions/positiveInteger"},
    "HasPos":{"type":"object","properties":{"n":{"$ref":"http://json-schema.org/draft-04/schema#/definitions/positiveInteger"}}}},
